@@ -253,8 +253,15 @@ def _api_checks(m, out):
         pass
     except Exception as e:
         viol.append({"key": "C19/result-unknown-attribute-wrong-exception", "detail": {"exc": repr(e)}})
-    # copies: mutate the optimiser's state, the stored values must not change
+    # copies: later use of the optimiser (running it again, mutating its state) must not change the stored values
     snap = {k: copy.deepcopy(r[k]) for k in ("x", "x0", "yval_vec", "ysd_vec", "fval", "fsd", "func_count", "mesh_size", "message")}
+    if (out.get("ncalls") or 0) % 3 == 0:
+        try:
+            b.options["max_fun_evals"] = int(b.function_logger.func_count) + 25
+            b.optimize()  # second run on the same object (its own result is not judged)
+            out["cnt"]["C19.second_optimize_on_same_object"] = 1
+        except Exception as e:
+            out["second_optimize_exc"] = type(e).__name__
     try:
         b.x0 += 123.0
         b.x += 456.0
